@@ -32,6 +32,62 @@ class TableOb(OracleOb):
     pid = "C01"
 
 
+from checks.common import D, Expect, TemplateObligation, cat
+from lx.lifted import dump_runner
+from lx.tree import Names
+
+T = lambda n: cat(D, ".", n.lower())
+P = lambda prefix, n: cat(prefix, n)        # a path keeps its spelling
+
+# dialect-specific statement kinds of the property's list (COPY, SELECT INTO, INSERT OVERWRITE, LIKE / CLONE, EXCHANGE / SWAP
+# PARTITION, file sources) and no-data kinds: (dialect, sql, expected(names) -> (sources, targets))
+RAW = {
+    "copy_from_path/postgres": ("postgres", "COPY zqt1 FROM 's3://bucket/zqp1'", lambda n: ([P("s3://bucket/", n["zqp1"])], [T(n["zqt1"])])),
+    "copy_from_path/redshift": ("redshift", "COPY zqt1 FROM 's3://bucket/zqp1'", lambda n: ([P("s3://bucket/", n["zqp1"])], [T(n["zqt1"])])),
+    "copy_into/snowflake": ("snowflake", "COPY INTO zqt1 FROM 's3://bucket/zqp1'", lambda n: ([P("s3://bucket/", n["zqp1"])], [T(n["zqt1"])])),
+    "select_into/postgres": ("postgres", "SELECT a.ca, b.cb INTO zqt1 FROM zqt2 AS a JOIN zqt3 AS b ON a.id = b.id", lambda n: ([T(n["zqt2"]), T(n["zqt3"])], [T(n["zqt1"])])),
+    "select_into/tsql": ("tsql", "SELECT ca INTO zqt1 FROM zqt2", lambda n: ([T(n["zqt2"])], [T(n["zqt1"])])),
+    "select_into_union/postgres": ("postgres", "SELECT ca INTO zqt1 FROM zqt2 UNION ALL SELECT cb FROM zqt3", lambda n: ([T(n["zqt2"]), T(n["zqt3"])], [T(n["zqt1"])])),
+    "insert_overwrite/sparksql": ("sparksql", "INSERT OVERWRITE TABLE zqt1 SELECT ca FROM zqt2", lambda n: ([T(n["zqt2"])], [T(n["zqt1"])])),
+    "insert_overwrite_no_table_kw/sparksql": ("sparksql", "INSERT OVERWRITE zqt1 SELECT ca FROM zqt2", lambda n: ([T(n["zqt2"])], [T(n["zqt1"])])),
+    "insert_overwrite_partition/hive": ("hive", "INSERT OVERWRITE TABLE zqt1 PARTITION (dt='1') SELECT ca FROM zqt2", lambda n: ([T(n["zqt2"])], [T(n["zqt1"])])),
+    "insert_overwrite_directory/sparksql": ("sparksql", "INSERT OVERWRITE DIRECTORY 'hdfs://nn/zqp1' SELECT ca FROM zqt1", lambda n: ([T(n["zqt1"])], [P("hdfs://nn/", n["zqp1"])])),
+    "insert_without_into/bigquery": ("bigquery", "INSERT zqt1 SELECT ca FROM zqt2", lambda n: ([T(n["zqt2"])], [T(n["zqt1"])])),
+    "select_from_file/sparksql": ("sparksql", "INSERT INTO zqt1 SELECT ca FROM parquet.`/data/zqp1`", lambda n: ([P("/data/", n["zqp1"])], [T(n["zqt1"])])),
+    "create_like/ansi": ("ansi", "CREATE TABLE zqt1 LIKE zqt2", lambda n: ([T(n["zqt2"])], [T(n["zqt1"])])),
+    "create_clone/snowflake": ("snowflake", "CREATE TABLE zqt1 CLONE zqt2", lambda n: ([T(n["zqt2"])], [T(n["zqt1"])])),
+    "exchange_partition/hive": ("hive", "ALTER TABLE zqt1 EXCHANGE PARTITION (dt='1') WITH TABLE zqt2", lambda n: ([T(n["zqt2"])], [T(n["zqt1"])])),
+    "swap_partitions/vertica": ("vertica", "SELECT swap_partitions_between_tables('zqt1', 1, 2, 'zqt2')", lambda n: ([T(n["zqt1"])], [T(n["zqt2"])])),
+    "lateral_view/sparksql": ("sparksql", "INSERT INTO zqt1 SELECT a.ca, zqa1.cb FROM zqt2 AS a LATERAL VIEW explode(a.arr) zqa1 AS cb", lambda n: ([T(n["zqt2"])], [T(n["zqt1"])])),
+    "update_join/mysql": ("mysql", "UPDATE zqt1 a JOIN zqt2 b ON a.id = b.id SET a.ca = b.cb", lambda n: ([T(n["zqt2"])], [T(n["zqt1"])])),
+    "create_view_if_not_exists/ansi": ("ansi", "CREATE VIEW IF NOT EXISTS zqt1 AS SELECT ca FROM zqt2", lambda n: ([T(n["zqt2"])], [T(n["zqt1"])])),
+    "truncate/ansi": ("ansi", "TRUNCATE TABLE zqt1", lambda n: ([], [])),
+    "delete_subquery/ansi": ("ansi", "DELETE FROM zqt1 WHERE id IN (SELECT id FROM zqt2)", lambda n: ([], [])),
+    "show/sparksql": ("sparksql", "SHOW CREATE TABLE zqt1", lambda n: ([], [])),
+    "use/ansi": ("ansi", "USE zqs1", lambda n: ([], [])),
+    "analyze/postgres": ("postgres", "ANALYZE zqt1", lambda n: ([], [])),
+    "cache_table/sparksql": ("sparksql", "CACHE TABLE zqt1 SELECT ca FROM zqt2", lambda n: ([], [])),
+    "refresh/sparksql": ("sparksql", "REFRESH TABLE zqt1", lambda n: ([], [])),
+    "drop_view/ansi": ("ansi", "DROP VIEW IF EXISTS zqt1", lambda n: ([], [])),
+}
+
+
+class RawTableOb(TemplateObligation):
+    fields = ("sources", "targets", "intermediates")
+
+    def __init__(self, name, dialect, sql, expect):
+        self.name, self.dialect, self.expect = name, dialect, expect
+        self.stmts = [sql]
+        self.key = "kind/" + name
+
+    def body(self):
+        names = Names(default_len=2)
+        lifted = dump_runner(self.script.runner(names))
+        src, tgt = self.expect(names)
+        exp = Expect(sources=src, targets=tgt)
+        return self.verdict(names, lifted, exp)
+
+
 def obligations(tier, seed):
     import random
 
@@ -39,11 +95,14 @@ def obligations(tier, seed):
     tpl = corpus.build(tier, seed)
     budget = 5 if tier == "quick" else 7
     obs = [TableOb(k, st, "ansi", "tabs", budget, seed) for k, st in tpl]
+    raw = [RawTableOb(n, d, q, e) for n, (d, q, e) in RAW.items()]
     if tier == "quick":
         keep = [o for o in obs if "/plain" in o.key or "nodata" in o.key or "merge" in o.key or "update" in o.key or "scalar" in o.key]
         rest = [o for o in obs if o not in keep]
         obs = keep + rnd.sample(rest, len(rest) // 2)
+        obs += raw
     else:
+        obs += raw
         for k, st in tpl:
             if "/plain" in k:
                 obs.append(TableOb(k, st, "ansi", "tabs", 5, seed, length=3))
